@@ -89,5 +89,69 @@ package accounts
 //@   loop 0 invariant idx: -1 <= rangeindex && rangeindex < len(m.Addresses)
 //@   loop 0 invariant none: forall j int :: 0 <= j && j <= rangeindex ==> m.Addresses[j] != address
 
+//@ # ---------------------------------------------------------------- C09/C02: Commit persists every dirty account and every dirty balance
+//@ # tree keys: prefix + 20 address bytes (account record), ... + balance prefix + 4 coin bytes (one balance). ASSUMED
+//@ # injective in the address and the coin (concatenation and the byte views are uninterpreted; lengths are interpreted,
+//@ # which keeps the key families apart).
+//@ spec accKey(a types.Address) string = bytechar(mainPrefix) + bytestr(a)
+//@ spec balKey(a types.Address, c types.CoinID) string = ((bytechar(mainPrefix) + bytestr(a)) + bytechar(balancePrefix)) + coinBytes(c)
+//@ axiom coinBytesLenA: forall x int :: len(coinBytes(x)) == 4
+//@ axiom accKeyInj: forall a types.Address, b types.Address :: accKey(a) == accKey(b) ==> a == b
+//@ axiom balKeyInj: forall a types.Address, b types.Address, c types.CoinID, d types.CoinID :: balKey(a, c) == balKey(b, d) ==> a == b && c == d
+//@ func (*Accounts).getOrderedDirtyAccounts
+//@   trusted
+//@   ensures allkeys: forall h types.Address :: (h in a.dirty) ==> exists i int :: 0 <= i && i < len(result) && result[i] == h
+//@   ensures onlykeys: forall i int :: 0 <= i && i < len(result) ==> (result[i] in a.dirty)
+//@   ensures once: forall i int, j int :: 0 <= i && i < j && j < len(result) ==> result[i] != result[j]
+//@   ensures fresh(result)
+//@   modifies nothing
+//@ # ASSUMED (sort not modelled): every coin the account holds a balance entry for is in the list
+//@ func (*Model).getOrderedCoins
+//@   trusted
+//@   ensures allcoins: forall c types.CoinID :: (c in model.balances) ==> exists i int :: 0 <= i && i < len(result) && result[i] == c
+//@   ensures fresh(result)
+//@   modifies nothing
+//@ # C09/C02: on success, for an arbitrary owner anyOwner() and coin anyCoin(): the account is no longer registered dirty;
+//@ # if its record was new or dirty (and encodes to something) the record is in the tree under the account's key; and if
+//@ # the balance of that coin was marked dirty, the tree holds the balance's bytes under the balance key when it is
+//@ # positive and no entry when it is zero
+//@ func (*Accounts).Commit
+//@   serves C09 C02
+//@   let h = anyOwner()
+//@   let co = anyCoin()
+//@   let m = old(a.list[h])
+//@   let skipped = old(m.isDirty || m.isNew) && len(rlpOf(m)) == 0
+//@   requires a != nil && a.dirty != nil && a.list != nil && db != nil && a.dirty != a.list
+//@   requires cached: forall k types.Address :: (k in a.dirty) ==> (k in a.list) && a.list[k] != nil && allocated(a.list[k]) && a.list[k].balances != nil && a.list[k].dirtyBalances != nil && a.list[k].balances != a.list[k].dirtyBalances && allocated(a.list[k].balances)
+//@   requires ownrecords: forall x types.Address, y types.Address :: x != y && (x in a.dirty) && (y in a.dirty) ==> a.list[x] != a.list[y] && a.list[x].balances != a.list[y].balances
+//@   requires amounts: forall k types.Address, c types.CoinID :: (k in a.dirty) && (c in a.list[k].dirtyBalances) ==> (c in a.list[k].balances) && a.list[k].balances[c] != nil && allocated(a.list[k].balances[c])
+//@   ensures [C09] cleared: result == nil ==> !(h in a.dirty)
+//@   ensures [C09] record: result == nil && old(h in a.dirty) && old(m.isDirty || m.isNew) && len(rlpOf(m)) != 0 ==> mtreeVal(db, accKey(h)) == rlpOf(m)
+//@   ensures [C09,C02] balance: result == nil && old(h in a.dirty) && !skipped && old(co in m.dirtyBalances) && old(m.balances[co].val) > 0 ==> mtreeVal(db, balKey(h, co)) == bigenc(old(m.balances[co].val))
+//@   ensures [C09,C02] nobalance: result == nil && old(h in a.dirty) && !skipped && old(co in m.dirtyBalances) && old(m.balances[co].val) == 0 ==> len(mtreeVal(db, balKey(h, co))) == 0
+//@   loop 0 invariant idx: -1 <= rangeindex && (rangeindex < len(accounts) || (rangeindex == -1 && len(accounts) == 0))
+//@   loop 0 invariant keys: forall i int :: 0 <= i && i < len(accounts) ==> old(accounts[i] in a.dirty)
+//@   loop 0 invariant once: forall i int, j int :: 0 <= i && i < j && j < len(accounts) ==> accounts[i] != accounts[j]
+//@   loop 0 invariant pending: forall i int :: rangeindex < i && i < len(accounts) ==> (accounts[i] in a.dirty) && (accounts[i] in a.list) && a.list[accounts[i]] == old(a.list[accounts[i]])
+//@   loop 0 invariant subset: forall k types.Address :: (k in a.dirty) ==> old(k in a.dirty)
+//@   loop 0 invariant gone: forall i int :: 0 <= i && i <= rangeindex ==> !(accounts[i] in a.dirty)
+//@   loop 0 invariant mine: (h in a.dirty) ==> a.list[h] == m && m.isDirty == old(m.isDirty) && m.isNew == old(m.isNew) && m.balances == old(m.balances) && m.dirtyBalances == old(m.dirtyBalances) && ((co in m.dirtyBalances) <==> old(co in m.dirtyBalances)) && ((co in m.balances) <==> old(co in m.balances)) && m.balances[co] == old(m.balances[co]) && m.balances[co].val == old(m.balances[co].val)
+//@   loop 0 invariant donerecord: old(h in a.dirty) && !(h in a.dirty) ==> (old(m.isDirty || m.isNew) && len(rlpOf(m)) != 0 ==> mtreeVal(db, accKey(h)) == rlpOf(m))
+//@   loop 0 invariant donebalance: old(h in a.dirty) && !(h in a.dirty) ==> (!skipped && old(co in m.dirtyBalances) && old(m.balances[co].val) > 0 ==> mtreeVal(db, balKey(h, co)) == bigenc(old(m.balances[co].val))) && (!skipped && old(co in m.dirtyBalances) && old(m.balances[co].val) == 0 ==> len(mtreeVal(db, balKey(h, co))) == 0)
+//@   loop 1 invariant idx: -1 <= rangeindex && (rangeindex < len(coins) || (rangeindex == -1 && len(coins) == 0))
+//@   loop 1 invariant outeridx: 0 <= loop0_rangeindex + 1 && loop0_rangeindex + 1 < len(accounts) && address == accounts[loop0_rangeindex + 1] && account == old(a.list[address]) && old(address in a.dirty) && !(address in a.dirty)
+//@   loop 1 invariant keys: forall i int :: 0 <= i && i < len(accounts) ==> old(accounts[i] in a.dirty)
+//@   loop 1 invariant once: forall i int, j int :: 0 <= i && i < j && j < len(accounts) ==> accounts[i] != accounts[j]
+//@   loop 1 invariant pending: forall i int :: loop0_rangeindex + 1 < i && i < len(accounts) ==> (accounts[i] in a.dirty) && (accounts[i] in a.list) && a.list[accounts[i]] == old(a.list[accounts[i]])
+//@   loop 1 invariant subset: forall k types.Address :: (k in a.dirty) ==> old(k in a.dirty)
+//@   loop 1 invariant gone: forall i int :: 0 <= i && i <= loop0_rangeindex + 1 ==> !(accounts[i] in a.dirty)
+//@   loop 1 invariant mine: (h in a.dirty) ==> a.list[h] == m && m.isDirty == old(m.isDirty) && m.isNew == old(m.isNew) && m.balances == old(m.balances) && m.dirtyBalances == old(m.dirtyBalances) && ((co in m.dirtyBalances) <==> old(co in m.dirtyBalances)) && ((co in m.balances) <==> old(co in m.balances)) && m.balances[co] == old(m.balances[co]) && m.balances[co].val == old(m.balances[co].val)
+//@   loop 1 invariant othersrecord: address != h && old(h in a.dirty) && !(h in a.dirty) ==> (old(m.isDirty || m.isNew) && len(rlpOf(m)) != 0 ==> mtreeVal(db, accKey(h)) == rlpOf(m))
+//@   loop 1 invariant othersbalance: address != h && old(h in a.dirty) && !(h in a.dirty) ==> (!skipped && old(co in m.dirtyBalances) && old(m.balances[co].val) > 0 ==> mtreeVal(db, balKey(h, co)) == bigenc(old(m.balances[co].val))) && (!skipped && old(co in m.dirtyBalances) && old(m.balances[co].val) == 0 ==> len(mtreeVal(db, balKey(h, co))) == 0)
+//@   loop 1 invariant thisrecord: address == h ==> (old(m.isDirty || m.isNew) && len(rlpOf(m)) != 0 ==> mtreeVal(db, accKey(h)) == rlpOf(m)) && !skipped
+//@   loop 1 invariant thiskept: address == h ==> m.balances == old(m.balances) && m.dirtyBalances == old(m.dirtyBalances) && ((co in m.dirtyBalances) <==> old(co in m.dirtyBalances)) && m.balances[co] == old(m.balances[co]) && m.balances[co].val == old(m.balances[co].val)
+//@   loop 1 invariant allcoins: forall c types.CoinID :: (c in account.balances) ==> exists i int :: 0 <= i && i < len(coins) && coins[i] == c
+//@   loop 1 invariant thisbalance: address == h ==> forall i int :: 0 <= i && i <= rangeindex && coins[i] == co ==> (!skipped && old(co in m.dirtyBalances) && old(m.balances[co].val) > 0 ==> mtreeVal(db, balKey(h, co)) == bigenc(old(m.balances[co].val))) && (!skipped && old(co in m.dirtyBalances) && old(m.balances[co].val) == 0 ==> len(mtreeVal(db, balKey(h, co))) == 0)
+
 //@ # ---------------------------------------------------------------- lock discipline (C25)
 //@ guarded Accounts.list, Accounts.dirty by lock
